@@ -84,6 +84,9 @@ CheckExtract(ev) ==
   \cup (IF ~ev.panic /\ inO /\ ev.err # exp.err THEN {"validity"} ELSE {})
   \cup (IF ~ev.panic /\ inO /\ ~ev.err /\ ~exp.err /\ ~ExtractOk(ev, exp) THEN {"extract"} ELSE {})
   \cup (IF ~ev.panic /\ inO /\ ev.err /\ exp.err /\ ~OffsetOk(ev, ev.e) THEN {"offset"} ELSE {})
+  \* beyond the listed properties: the exact ORDER (Order.tla), judged for small expansions only, a drift note
+  \cup (IF ~ev.panic /\ inO /\ ~ev.err /\ ~exp.err /\ ExtractOk(ev, exp) /\ DnfAlts(Parse(ev.e).node) <= 64
+           /\ ev.out # ExtractOrder(Parse(ev.e).node) THEN {"extract-order"} ELSE {})
 
 \* stage events (recorded through the hooks; empty when the harness was built without them) must spell
 \* the path of the pipeline the specification prescribes for these arguments
